@@ -422,7 +422,7 @@ def quad_discrepancy(c):
     """how far scipy.integrate.quad is from the exact integral on this waveform (recorded assumption, measured)"""
     import scipy.integrate
     worst = 0.0
-    for b in [Fraction(1)] + linspace_exact(c["eps"], 1 - c["eps"], c["n"])[:: max(1, c["n"] // 3)]:
+    for b in [Fraction(1)] + linspace_exact(c["eps"], 1 - c["eps"], c["n"]):
         worst = max(worst, abs(scipy.integrate.quad(c["f"], 0, float(b))[0] - float(c["f"].integral(0, b))))
     return worst
 
